@@ -272,12 +272,45 @@ int main(int argc, char **argv) {
 		std::vector<json> cases = read_ndjson(argv[2]);
 		std::ofstream out(argv[3]);
 		std::map<std::string, size_t> idx; for (size_t i = 0; i < samples.size(); i++) idx[samples[i].type] = i;
-		for (size_t k = 0; k < cases.size(); k++) {
-			json c = cases[k];
-			if (!idx.count(c["type"])) continue;
-			json r = run_case(samples[idx[c["type"]]], c);
-			c["out"] = r["out"]; if (r.contains("signal")) c["signal"] = r["signal"]; if (r.contains("exit")) c["exit"] = r["exit"];
-			out << c.dump() << "\n";
+		// a child works through the cases and reports one character per case; when it dies or hangs, the case it was on is the
+		// culprit and a new child continues behind it (one fork per case costs too much under the sanitizers)
+		std::vector<json> todo; for (size_t k = 0; k < cases.size(); k++) if (idx.count(cases[k]["type"])) todo.push_back(cases[k]);
+		size_t k = 0;
+		while (k < todo.size()) {
+			int pfd[2]; if (pipe(pfd) != 0) return 2;
+			fflush(stdout); out.flush();
+			pid_t pid = fork();
+			if (pid == 0) {
+				close(pfd[0]);
+				{ int dn = open("/dev/null", O_WRONLY); if (dn >= 0) { dup2(dn, 2); close(dn); } }
+				for (size_t i = k; i < todo.size(); i++) {
+					const Sample &sm = samples[idx[todo[i]["type"]]];
+					bool ok; std::string s = apply(sm, todo[i], ok);
+					char code = 'n';
+					if (ok) {
+						alarm(300);
+						try { code = consume(sm.type, s) ? 'a' : 'r'; } catch (std::exception &ex) { code = 'e'; } catch (...) { code = 'e'; }
+						alarm(0);
+					}
+					ssize_t w = write(pfd[1], &code, 1); (void)w;
+				}
+				close(pfd[1]); _exit(0);
+			}
+			close(pfd[1]);
+			while (k < todo.size()) {
+				char code = 0; ssize_t r = read(pfd[0], &code, 1);
+				if (r != 1) break;
+				json c = todo[k]; c["out"] = code == 'a' ? "accepted" : (code == 'e' ? "exception" : (code == 'n' ? "n/a" : "refused"));
+				out << c.dump() << "\n"; k++;
+			}
+			close(pfd[0]);
+			int status = 0; waitpid(pid, &status, 0);
+			if (k < todo.size()) {        // the child ended while working on case k
+				json c = todo[k];
+				if (WIFSIGNALED(status)) { int sg = WTERMSIG(status); c["out"] = (sg == SIGXCPU || sg == SIGALRM) ? "timeout" : "crash"; c["signal"] = sg; }
+				else { c["out"] = "crash"; c["exit"] = WEXITSTATUS(status); }     // sanitizer report: exit without result
+				out << c.dump() << "\n"; k++;
+			}
 		}
 		return 0;
 	}
